@@ -75,6 +75,14 @@ func histExec(op M) (res any) {
 		prog = append(prog, s)
 	}
 	converted = true
+	// "raw": the list an extraction returns is used as it is in the following steps (a caller that
+	// goes on editing the sub-graph he extracted); otherwise a copy of it
+	keep := func(r *sbom.NodeList) *sbom.NodeList {
+		if op["raw"] == true {
+			return r
+		}
+		return r.Copy()
+	}
 	states := []any{}
 	for _, s := range prog {
 		switch s.i {
@@ -92,14 +100,14 @@ func histExec(op M) (res any) {
 			_ = regs[s.a].RelateNodeListAtID(regs[s.b].Copy(), s.at, s.ty)
 		case "nodeGraph":
 			if r := regs[s.a].NodeGraph(s.id); r != nil {
-				regs[s.dst] = r.Copy()
+				regs[s.dst] = keep(r)
 			}
 		case "nodeSiblings":
 			if r := regs[s.a].NodeSiblings(s.id); r != nil {
-				regs[s.dst] = r.Copy()
+				regs[s.dst] = keep(r)
 			}
 		case "nodeDescendants":
-			regs[s.dst] = regs[s.a].NodeDescendants(s.id, s.depth).Copy()
+			regs[s.dst] = keep(regs[s.a].NodeDescendants(s.id, s.depth))
 		case "purlType":
 			regs[s.dst] = regs[s.a].GetNodesByPurlType(s.t).Copy()
 		}
@@ -205,6 +213,12 @@ func histGen(g *G, tier string) []M {
 			}
 		}
 		ops = append(ops, M{"op": "hist", "regs": regs, "prog": prog, "spare": g.Chance(0.5)})
+	}
+	g2 := NewG(int64(g.Int(1 << 30)))
+	for _, op := range ops {
+		if g2.Chance(0.4) {
+			op["raw"] = true
+		}
 	}
 	return ops
 }
